@@ -87,6 +87,12 @@ class HierarchicalProblem(up.model.problem.Problem):
         }
         new_p._timed_goals = {i: [g for g in gl] for i, gl in self._timed_goals.items()}
         new_p._goals = self._goals[:]
+        new_p._fluents_assigned = {
+            t: d.copy() for t, d in self._fluents_assigned.items()
+        }
+        new_p._fluents_inc_dec = {
+            t: fs.copy() for t, fs in self._fluents_inc_dec.items()
+        }
         new_p._metrics = []
         for m in self._metrics:
             if m.is_minimize_action_costs():
